@@ -277,6 +277,17 @@ def run(pm, ctx):
                     if not inner:
                         guards = [(unparse(e), pol) for e, pol in pi.at(b)]
                         ok &= ('found_deprecated', True) in guards
+    if len(iw) == 1 and not ok:
+        # the same scan written as one expression: `if any(route.deprecated for namespace in
+        # api.namespaces.values() for route in namespace.routes): emit('import warnings')`
+        for e, pol in pi.at(iw[0]):
+            if pol and isinstance(e, ast.Call) and call_name(e) == 'any' and e.args and \
+                    isinstance(e.args[0], (ast.GeneratorExp, ast.ListComp)):
+                g = e.args[0]
+                its = [unparse(x.iter) for x in g.generators]
+                ok = its == ['api.namespaces.values()', 'namespace.routes'] and \
+                    unparse(g.elt) == 'route.deprecated' and \
+                    not any(x.ifs for x in g.generators) and not pi.loops_at(iw[0])
     ctx.check('C14-R3', ok, '`import warnings` is emitted when any route of any namespace is '
               'deprecated (the outer scan stops only once one was found)', gen.loc,
               msg='the scan for deprecated routes can stop before every namespace was looked at: '
